@@ -262,7 +262,7 @@ Proof. apply map_length. Qed.
 Lemma wf_step cfg s t e s' o : wf_state cfg s -> step cfg s t e = Some (s', o) -> wf_state cfg s'.
 Proof.
   intros [Hlen Hfl] H. unfold step in H. destruct (time_ok s t); [|discriminate]. cbn [negb] in H.
-  destruct e as [a|tau sup|i|i oc|i| | |i en|].
+  destruct e as [a|tau sup|i|i oc|i| | |i en|i en|].
   - (* EInsert *) destruct (s_group s) as [g|] eqn:Hg; inversion H; subst; clear H; split; cbn; auto.
     + intros g' fl [= <-] Hf. cbn in Hf. eapply Hfl; eauto.
     + intros g' fl [= <-] Hf. discriminate.
@@ -351,6 +351,8 @@ Proof.
     + inversion H; subst; clear H. split; [exact Hlen|]. cbn. intros g' fl' [= <-] Hf'. discriminate.
   - (* ENflogGC *) inversion H; subst; clear H. split; [cbn; rewrite map_length; exact Hlen|]. cbn. exact Hfl.
   - (* ENflogMerge *) destruct (s_nflog s !! i); [|discriminate]. inversion H; subst; clear H.
+    split; [cbn; rewrite set_nth_length; exact Hlen|]. cbn. exact Hfl.
+  - (* ENflogLoad *) destruct (s_nflog s !! i); [|discriminate]. inversion H; subst; clear H.
     split; [cbn; rewrite set_nth_length; exact Hlen|]. cbn. exact Hfl.
   - (* EEnd *) inversion H; subst; clear H. split; [exact Hlen|]. cbn. exact Hfl.
 Qed.
@@ -459,10 +461,10 @@ Qed.
    untouched, so the obligation to notify stays. *)
 Lemma nflog_changes_only_by_log cfg s t e s' o :
   step cfg s t e = Some (s', o) -> s_nflog s' <> s_nflog s ->
-  (exists i F R, In (OLog i F R t) o) \/ e = ENflogGC \/ (exists i en, e = ENflogMerge i en).
+  (exists i F R, In (OLog i F R t) o) \/ e = ENflogGC \/ (exists i en, e = ENflogMerge i en \/ e = ENflogLoad i en).
 Proof.
   intros H Hne. unfold step in H. destruct (time_ok s t); [|discriminate]. cbn [negb] in H.
-  destruct e as [a|tau sup|i|i oc|i| | |i en|]; try (right; left; reflexivity); try (right; right; eauto; fail).
+  destruct e as [a|tau sup|i|i oc|i| | |i en|i en|]; try (right; left; reflexivity); try (right; right; eauto; fail).
   all: repeat match type of H with
          | (if ?c then _ else _) = Some _ => destruct c; try discriminate H
          | match ?x with _ => _ end = Some _ => destruct x; try discriminate H
@@ -602,7 +604,7 @@ Definition apply_log (ret rep : Z) (cur : option nentry) (l : list Z * list Z * 
   nf_log ret rep (snd l) cur (fst (fst l)) (snd (fst l)).
 
 Definition no_gc_merge (e : ev) : bool :=
-  match e with ENflogGC | ENflogMerge _ _ => false | _ => true end.
+  match e with ENflogGC | ENflogMerge _ _ | ENflogLoad _ _ => false | _ => true end.
 
 Lemma logs_of_app i a b : logs_of i (a ++ b) = logs_of i a ++ logs_of i b.
 Proof. unfold logs_of. apply omap_app. Qed.
@@ -622,7 +624,7 @@ Proof.
     cbn. repeat (case_decide; cbn); subst; try congruence; try lia.
     - split; [intros [= ->]; reflexivity|intros ->; reflexivity].
     - rewrite Hcur. tauto. }
-  destruct e as [a|tau sup|j|j oc|j| | |j en|]; try discriminate Hn.
+  destruct e as [a|tau sup|j|j oc|j| | |j en|j en|]; try discriminate Hn.
   - (* EInsert *) destruct (s_group s); inversion H; subst; exact Hcur.
   - (* ETick *)
     repeat match type of H with
@@ -774,7 +776,7 @@ Lemma notify_origin cfg s t e s' o i r sent oc :
   step cfg s t e = Some (s', o) -> In (ONotify i r sent oc) o -> e = EAttempt i oc.
 Proof.
   intros H Hin. unfold step in H. destruct (time_ok s t); [|discriminate]. cbn [negb] in H.
-  destruct e as [a|tau sup|j|j oc'|j| | |j en|];
+  destruct e as [a|tau sup|j|j oc'|j| | |j en|j en|];
     repeat match type of H with
            | (if ?c then _ else _) = Some _ => destruct c; try discriminate H
            | match ?x with _ => _ end = Some _ => destruct x; try discriminate H
@@ -787,7 +789,7 @@ Lemma log_origin cfg s t e s' o i F R ts :
   step cfg s t e = Some (s', o) -> In (OLog i F R ts) o -> ts = t /\ (e = EAttempt i OK \/ e = EDedup i).
 Proof.
   intros H Hin. unfold step in H. destruct (time_ok s t); [|discriminate]. cbn [negb] in H.
-  destruct e as [a|tau sup|j|j oc'|j| | |j en|];
+  destruct e as [a|tau sup|j|j oc'|j| | |j en|j en|];
     repeat match type of H with
            | (if ?c then _ else _) = Some _ => destruct c; try discriminate H
            | match ?x with _ => _ end = Some _ => destruct x; try discriminate H
@@ -859,7 +861,7 @@ Lemma step_flight_cases cfg s t e s' o g' fl' :
   (exists g fl, s_group s = Some g /\ gr_flight g = Some fl /\ fl_start fl' = fl_start fl /\ fl_all fl' = fl_all fl).
 Proof.
   intros H Hg' Hf'. unfold step in H. destruct (time_ok s t); [|discriminate]. cbn [negb] in H.
-  destruct e as [a|tau sup|i|i oc|i| | |i en|].
+  destruct e as [a|tau sup|i|i oc|i| | |i en|i en|].
   - destruct (s_group s) as [g|] eqn:Hg; inversion H; subst; cbn in Hg'; inversion Hg'; subst; cbn in Hf'.
     + right. exists g, fl'. auto.
     + discriminate.
@@ -887,6 +889,8 @@ Proof.
       inversion H; subst; cbn in Hg'; try discriminate; inversion Hg'; subst; cbn in Hf'; discriminate.
   - inversion H; subst. cbn in Hg'. right. destruct (s_group s) as [g|] eqn:Hg; [|discriminate].
     inversion Hg'; subst. exists g', fl'. auto.
+  - destruct (s_nflog s !! i); [|discriminate]. inversion H; subst. cbn in Hg'. right.
+    destruct (s_group s) as [g|] eqn:Hg; [|discriminate]. inversion Hg'; subst. exists g', fl'. auto.
   - destruct (s_nflog s !! i); [|discriminate]. inversion H; subst. cbn in Hg'. right.
     destruct (s_group s) as [g|] eqn:Hg; [|discriminate]. inversion Hg'; subst. exists g', fl'. auto.
   - inversion H; subst. cbn in Hg'. right. destruct (s_group s) as [g|] eqn:Hg; [|discriminate].
@@ -996,7 +1000,7 @@ Lemma retry_chain_persists cfg s t e s' o g fl i r sent F R n :
                      fl_deadline fl' = fl_deadline fl).
 Proof.
   intros H Hg Hf Hc. unfold step in H. destruct (time_ok s t); [|discriminate]. cbn [negb] in H. rewrite Hg in H.
-  destruct e as [a|tau sup|j|j oc|j| | |j en|].
+  destruct e as [a|tau sup|j|j oc|j| | |j en|j en|].
   - inversion H; subst. right. right. exists (mkGr (store_set (gr_alerts g) a) (gr_deadline g) (gr_flight g)), fl, n. cbn. auto.
   - rewrite Hf in H. discriminate.
   - rewrite Hf in H. destruct (decide (j = i)) as [->|Hne].
@@ -1026,6 +1030,7 @@ Proof.
     rewrite forallb_forall in Hd. apply elem_of_list_lookup_2 in Hc. apply elem_of_list_In in Hc.
     specialize (Hd _ Hc). discriminate.
   - inversion H; subst. right. right. exists g, fl, n. cbn. auto.
+  - destruct (s_nflog s !! j); [|discriminate]. inversion H; subst. right. right. exists g, fl, n. cbn. auto.
   - destruct (s_nflog s !! j); [|discriminate]. inversion H; subst. right. right. exists g, fl, n. cbn. auto.
   - inversion H; subst. right. right. exists g, fl, n. cbn. auto.
 Qed.
@@ -1068,11 +1073,12 @@ Lemma idle_step cfg s t e s' o g :
   (exists g', s_group s' = Some g' /\ gr_flight g' = None /\ gr_deadline g' = gr_deadline g).
 Proof.
   intros H Hg Hf. unfold step in H. destruct (time_ok s t); [|discriminate]. cbn [negb] in H. rewrite Hg in H.
-  destruct e as [a|tau sup|i|i oc|i| | |i en|]; try (rewrite Hf in H; discriminate).
+  destruct e as [a|tau sup|i|i oc|i| | |i en|i en|]; try (rewrite Hf in H; discriminate).
   - inversion H; subst. right. eexists. cbn. auto.
   - rewrite Hf in H. destruct ((tau =? gr_deadline g) && (tau <=? t)) eqn:Hc; [|discriminate].
     apply andb_prop in Hc as [Hc _]. left. exists sup. f_equal. lia.
   - inversion H; subst. right. exists g. auto.
+  - destruct (s_nflog s !! i); [|discriminate]. inversion H; subst. right. exists g. auto.
   - destruct (s_nflog s !! i); [|discriminate]. inversion H; subst. right. exists g. auto.
   - inversion H; subst. right. exists g. auto.
 Qed.
@@ -1103,7 +1109,7 @@ Lemma flight_step cfg s t e s' o g fl :
   (exists g' fl', s_group s' = Some g' /\ gr_flight g' = Some fl' /\ fl_deadline fl' = fl_deadline fl).
 Proof.
   intros H Hg Hf. unfold step in H. destruct (time_ok s t); [|discriminate]. cbn [negb] in H. rewrite Hg in H.
-  destruct e as [a|tau sup|i|i oc|i| | |i en|]; try rewrite Hf in H.
+  destruct e as [a|tau sup|i|i oc|i| | |i en|i en|]; try rewrite Hf in H.
   - inversion H; subst. right. do 2 eexists. cbn. split; [reflexivity|]. split; reflexivity.
   - discriminate.
   - destruct (fl_chains fl !! i) as [c|]; [|discriminate]. destruct c; try discriminate.
@@ -1119,6 +1125,7 @@ Proof.
       do 2 eexists; cbn; (split; [reflexivity|]); (split; [reflexivity|]); reflexivity.
   - left. reflexivity.
   - inversion H; subst. right. exists g, fl. auto.
+  - destruct (s_nflog s !! i); [|discriminate]. inversion H; subst. right. exists g, fl. auto.
   - destruct (s_nflog s !! i); [|discriminate]. inversion H; subst. right. exists g, fl. auto.
   - inversion H; subst. right. exists g, fl. auto.
 Qed.
